@@ -5,6 +5,7 @@ import (
 	"net"
 	"sort"
 	"strings"
+	"sync"
 	"time"
 
 	"github.com/insomniacslk/dhcp/dhcpv4"
@@ -58,6 +59,7 @@ type sstate struct {
 	s    *v4sys
 	obs  []*sreply
 	done int
+	bk   sync.Mutex // harness bookkeeping (free-running -race pass)
 }
 
 func (sc sscen) part() string { return "sched:" + sc.name }
@@ -95,21 +97,27 @@ func (sc sscen) scenario() *sched.Scenario {
 					if op == "cleanup" {
 						s.d.Cleanup()
 						x.Obs("T%d:cleanup", ti)
+						st.bk.Lock()
 						st.done++
+						st.bk.Unlock()
 						return
 					}
 					i := strings.Index(op, ":")
 					n, kind := op[:i], op[i+1:]
 					m, target := s.rawMsg(n, kind)
 					r := &sreply{client: n, kind: kind, target: target}
+					st.bk.Lock()
 					st.obs = append(st.obs, r)
+					st.bk.Unlock()
 					r.replies = s.d.Send(m)
 					var o []string
 					for _, q := range r.replies {
 						o = append(o, q.String())
 					}
 					x.Obs("T%d:%s=%s", ti, op, strings.Join(o, ","))
+					st.bk.Lock()
 					st.done++
+					st.bk.Unlock()
 				})
 			}
 		},
